@@ -3,12 +3,13 @@
 (* One state per probe (pair/triple of identifiers, pair of edges, sequence). *)
 EXTENDS Ident, TLC
 
-CONSTANTS NQ,      \* number of qubits for channel identifiers
+CONSTANTS NQ,      \* number of small qubit indices for channel identifiers (plus the large index 300)
           NE,      \* number of qubits for edges
           MaxLen   \* longest sequence for UniqueInOrder
 VARIABLE probe
 
-ChanU == (0..(NQ-1)) \X ChannelKinds
+QV == (0..(NQ-1)) \cup {300}
+ChanU == QV \X ChannelKinds
 EdgeU == {e \in (0..(NE-1)) \X (0..(NE-1)) : e[1] # e[2]}
 Elems == {"a", "b", "c"}
 RECURSIVE SeqsUpTo(_)
